@@ -420,8 +420,13 @@ example : ¬ OctetWF "1,256".toList := by decide +kernel
 example : validNmapRange noForeign "10.0.0.3-2".toList = .ok false := by decide +kernel
 
 /-- octet-list form, malformed (empty spec, not four lists, or a malformed element): iteration
-    raises ValueError or AddrFormatError before the first item, and `valid_nmap_range` is False -/
-theorem nmap_rejects (F : Foreign) (fuel : Nat) (spec : List Char)
+    raises ValueError or AddrFormatError before the first item, and `valid_nmap_range` is False.
+    `0 < fuel` was added after audit 2b finding 2: the statement without it was FALSE of the code
+    at `fuel = 0` — `iter_nmap_range` is a generator, nothing of it runs before the first
+    `next()`, so `list(islice(iter_nmap_range('bad'), 0)) == []`; `Nmap.iterNmapRange` is the
+    generator advanced at least once (`fuel ≥ 1`), the `fuel = 0` case is
+    `Nmap.isliceNmapRange` / `C17A2.nmap_take_zero`. -/
+theorem nmap_rejects (F : Foreign) (fuel : Nat) (_hf : 0 < fuel) (spec : List Char)
     (h1 : '/' ∉ spec) (h2 : ':' ∉ spec) (hwf : ¬ NmapOctetsWF spec) :
     (∃ e, iterNmapRange F fuel spec = .error e ∧ (e = .value ∨ e = .addrFormat)) ∧
       validNmapRange F spec = .ok false := by
@@ -453,8 +458,11 @@ theorem nmap_rejects (F : Foreign) (fuel : Nat) (spec : List Char)
 /-- CIDR form (`/` in the spec): the prefix text must be an `int()` in 1..32 (else ValueError /
     AddrFormatError), the foreign `IPNetwork(spec)` must accept it as IPv4 (else its error /
     AddrFormatError); iteration then yields, ascending, exactly the addresses `first..last` of
-    that network -/
-theorem nmap_cidr (F : Foreign) (fuel : Nat) (spec : List Char) (h1 : '/' ∈ spec) :
+    that network.
+    (`nmap_cidr_model`: the equation for the model function at every `fuel`; it is a lemma — at
+    `fuel = 0` its error branches say something the Python generator does not do, see
+    `nmap_cidr` below, which is the property statement.) -/
+theorem nmap_cidr_model (F : Foreign) (fuel : Nat) (spec : List Char) (h1 : '/' ∈ spec) :
     iterNmapRange F fuel spec =
       match Py.pyInt 10 (split1 '/' spec).2 with
       | none => .error .value
@@ -480,6 +488,23 @@ theorem nmap_cidr (F : Foreign) (fuel : Nat) (spec : List Char) (h1 : '/' ∈ sp
         split
         · rfl
         · rw [← List.map_take, List.take_range, Nat.min_comm]
+
+/-- **CIDR form** (the property statement; `0 < fuel` added after audit 2b finding 2 — the
+    error branches were FALSE of the code at `fuel = 0`, where the generator has not started and
+    `islice(gen, 0)` is `[]` whatever the spec): the equation of `nmap_cidr_model` for every
+    positive number of items asked for. -/
+theorem nmap_cidr (F : Foreign) (fuel : Nat) (_hf : 0 < fuel) (spec : List Char) (h1 : '/' ∈ spec) :
+    iterNmapRange F fuel spec =
+      match Py.pyInt 10 (split1 '/' spec).2 with
+      | none => .error .value
+      | some p =>
+        if ¬ (0 < p ∧ p < 33) then .error .addrFormat
+        else match F.ipNetwork spec with
+          | .error e => .error e
+          | .ok net =>
+            if net.ver ≠ 4 then .error .addrFormat
+            else .ok ((((List.range (net.last + 1 - net.first)).map (net.first + ·)).take fuel).map (fun v => ⟨4, v⟩)) :=
+  nmap_cidr_model F fuel spec h1
 
 theorem cidr_block_members (first last a : Nat) :
     a ∈ (List.range (last + 1 - first)).map (first + ·) ↔ first ≤ a ∧ a ≤ last := by
